@@ -1428,7 +1428,8 @@ func instCorpus(o *hxlib.Out) {
 	c := &decl{kind: "struct", fields: []*decl{{kind: "int", w: 8}, key, {kind: "bool"}}}
 	runMainarg(o, -26, c, []string{"200", "0xa0a1", "t"})
 	runInsts(o, -27, c.toInfo(), []int{1, 1, 1})
-	// nested struct argument: the member after the nested struct is sized from the wrong entry (listed finding)
+	// nested struct argument: the member after the nested struct is sized from its own input (defect repaired by
+	// 4a72a07: it used to be sized from an earlier entry)
 	u := func() *decl { return &decl{kind: "int", w: 0} }
 	nested := &decl{kind: "struct", fields: []*decl{{kind: "struct", fields: []*decl{u(), u()}}, u()}}
 	runMainarg(o, -28, nested, []string{"1", "255", "65535"})
